@@ -46,7 +46,7 @@ def _exec(args):
             # scalars: extreme corners and random
             for (ca, cb) in [(a[0], b[0]), (a[1], b[1]), (a[0], b[1]), (a[1], b[0]), (rng.choice(a), rng.choice(b))]:
                 out.append(x_arith.observe_arith(fx, np, ['C19'], op, tx, ty, [ca], [cb], scalar=True,
-                                                 route=rng.choice(['operator', 'function', 'numpy'])))
+                                                 route=rng.choice(['operator', 'function', 'numpy', 'iop'])))
             # arrays
             k = min(len(a), len(b), 8)
             out.append(x_arith.observe_arith(fx, np, ['C19'], op, tx, ty, a[:k], b[:k], route=rng.choice(['operator', 'function'])))
